@@ -70,22 +70,22 @@ func bindLivePhis(sx *core.Symx, fn *ssa.Function, use ssa.Instruction) {
 	}
 	// a Phi with one live operand is that operand; when the operand is itself such a Phi, follow it (nested expansions
 	// merge the same value twice)
-	bound := map[*ssa.Phi]string{}
+	bound := map[*ssa.Phi]*core.Term{}
 	for round := 0; round < 4; round++ {
 		for _, phi := range phis {
 			live := liveOf[phi]
-			if bound[phi] != "" || len(live) != 1 || len(phi.Edges) <= 1 {
+			if bound[phi] != nil || len(live) != 1 || len(phi.Edges) <= 1 {
 				continue
 			}
 			if inner, isPhi := live[0].(*ssa.Phi); isPhi {
-				if s := bound[inner]; s != "" {
-					bound[phi] = s
-					sx.Bind(phi, s)
+				if t := bound[inner]; t != nil {
+					bound[phi] = t
+					sx.BindTerm(phi, t)
 				}
 				continue
 			}
-			bound[phi] = sx.Of(live[0]).String()
-			sx.Bind(phi, bound[phi])
+			bound[phi] = sx.Of(live[0])
+			sx.BindTerm(phi, bound[phi])
 		}
 	}
 }
